@@ -408,6 +408,95 @@ def _rule_unjson(j):
                 strict=j.get("strict"), merge=j.get("merge"))
 
 
+def concurrent_first_match(rec, rng, n):
+    """Schedule: the first requests on a fresh Map arrive on two threads (yields injected inside Map.update and the
+    matcher's update via sys.monitoring).  Priority must not depend on who got there first: both threads get what a
+    map that was sorted before its first use gives, also with the broader converter registered first."""
+    import sys
+    import threading
+    import time
+
+    from werkzeug.exceptions import HTTPException
+    from werkzeug.routing import Map, Rule
+    from werkzeug.routing import map as MP
+    from werkzeug.routing import matcher as MM
+
+    mon = getattr(sys, "monitoring", None)
+    if mon is None:
+        return
+    TOOL = 5
+    try:
+        mon.use_tool_id(TOOL, "verif-yield-c03")
+    except ValueError:
+        return
+    inj = [0]
+
+    def on_line(code, line):
+        inj[0] += 1
+        time.sleep(0.0004)
+
+    codes = [c for c in (opt(lambda: MP.Map.update.__code__), opt(lambda: MM.StateMachineMatcher.update.__code__)) if c is not None]
+    for c in list(codes):
+        codes += [k for k in c.co_consts if hasattr(k, "co_code")]  # nested helpers (the per-state sort) are code objects of their own
+    mon.register_callback(TOOL, mon.events.LINE, on_line)
+    for c in codes:
+        mon.set_local_events(TOOL, c, mon.events.LINE)
+    try:
+        for _ in range(n):
+            # insertion order is adversarial: broader converters first, fillers so that the sort has something to do
+            specs = [("/zz/<string:s>", "text"), ("/zz/<int:i>", "number"), ("/zz/<path:p>", "rest"), ("/zz/12", "literal"),
+                     ("/q/<string(length=2):a>", "two"), ("/q/<int:b>", "int"), ("/q/<float:c>", "float")]
+            specs += [(f"/fill{j}/<string:x>/<int:y>", f"fill{j}") for j in range(rng.randint(5, 40))]
+            if rng.random() < 0.5:
+                rng.shuffle(specs)
+            paths = ["/zz/5", "/zz/12", "/zz/a", "/zz/a/b", "/q/12", "/q/1.5", "/q/ab", "/fill3/a/7", "/nope"]
+
+            def outcome(ad, p):
+                try:
+                    ep, args = ad.match(p)
+                    return (ep, tuple(sorted(args.items())))
+                except HTTPException as e:
+                    return type(e).__name__
+                except Exception as e:  # noqa: BLE001
+                    return "EXC:" + type(e).__name__
+
+            ref = Map([Rule(r, endpoint=e) for r, e in specs])
+            ref.update()
+            refad = ref.bind("h.com")
+            expected = {p: outcome(refad, p) for p in paths}
+            m = Map([Rule(r, endpoint=e) for r, e in specs])
+            ad = m.bind("h.com")
+            results = {}
+            barrier = threading.Barrier(2)
+            stagger = rng.choice([0.0005, 0.001, 0.002, 0.004, 0.008, 0.016])
+
+            def worker(i):
+                barrier.wait()
+                if i:
+                    time.sleep(stagger)  # arrive while the other thread is inside the first update()
+                results[i] = [(p, outcome(ad, p)) for p in (paths if i == 0 else paths[::-1])]
+
+            ts = [threading.Thread(target=worker, args=(i,)) for i in range(2)]
+            for t in ts:
+                t.start()
+            for t in ts:
+                t.join(60)
+            rec.case()
+            rec.observe("concurrent_first_match_maps")
+            rec.nontrivial(("conc", tuple(r for r, _ in specs)))
+            for i, out in results.items():
+                for p, got in out:
+                    if got != expected[p]:
+                        rec.violation("C03/concurrent-first-use-matches-differently", f"thread {i}: match({p!r}) = {got!r}, a map sorted before its first use gives {expected[p]!r}; rules {[r for r, _ in specs][:8]}...",
+                                      {"rules": [r for r, _ in specs], "path": p}, monitor="schedule-stress")
+                        break
+    finally:
+        for c in codes:
+            mon.set_local_events(TOOL, c, 0)
+        mon.free_tool_id(TOOL)
+    rec.observe("concurrent_injected_yields", inj[0])
+
+
 def run(shard, rec, rng):
     from werkzeug.routing import matcher as MM
     from werkzeug.routing import rules as RR
@@ -422,6 +511,7 @@ def run(shard, rec, rng):
         "Rule.compile": opt(lambda: RR.Rule.compile),
     })
     cfg = TIERS[shard["_tier"]]
+    concurrent_first_match(rec, rng, 4 if shard["_tier"] == "quick" else 20)
     for i in range(cfg["maps"]):
         n = rng.choice((1, 2, 2, 3, 3, 3, 4, 4, 5, 6))
         rules = [gen_rule(rng, 0)]
